@@ -2021,6 +2021,9 @@ static void get_user_data (interactive_t* ip, io_event_t* evt) {
                   {
                     push_malloced_string (str);
                     apply (APPLY_PROCESS_INPUT, ip->ob, 1, ORIGIN_DRIVER);
+                    /* process_input() may have removed the interactive (quit, exec, remove_interactive) */
+                    if (!is_interactive_user (ip))
+                      return;
                   }
                 if (ip->text_start == ip->text_end)
                   {
